@@ -31,24 +31,29 @@ def build(bufsize=None):
     """The harness against /repo's tree.  bufsize: build variant with CONFIG_MAX_MESSAGE_SIZE replaced
     (the real reader's buffer), None = the repository default."""
     inc = C.gen_config("default")
-    tag = "default" if bufsize is None else str(bufsize)
-    d = os.path.join(C.WORK, "gen", "c12inc-" + tag)
-    g = os.path.join(d, "generated")
-    os.makedirs(g, exist_ok=True)
-    for h in glob.glob(os.path.join(inc, "*.h")):
-        txt = open(h).read()
-        if bufsize is not None and os.path.basename(h) == "cjet_config.h":
-            txt, n = re.subn(r"CONFIG_MAX_MESSAGE_SIZE\s*=\s*\d+", "CONFIG_MAX_MESSAGE_SIZE = %d" % bufsize, txt)
-            if n != 1:
-                raise C.BuildError("cjet_config.h no longer defines CONFIG_MAX_MESSAGE_SIZE as an enum constant")
-        p = os.path.join(g, os.path.basename(h))
-        if not os.path.exists(p) or open(p).read() != txt:
-            with open(p, "w") as f:
-                f.write(txt)
+    flags = ["-I" + os.path.join(C.SRC, "zlib")]
+    if bufsize is not None:
+        # own copy of the generated headers with the buffer size replaced; -iquote precedes every -I
+        d = os.path.join(C.WORK, "gen", "c12inc-%d" % bufsize)
+        g = os.path.join(d, "generated")
+        os.makedirs(g, exist_ok=True)
+        hs = glob.glob(os.path.join(inc, "generated", "*.h"))
+        if not hs:
+            raise C.BuildError("no generated config headers under " + inc)
+        for h in hs:
+            txt = open(h).read()
+            if os.path.basename(h) == "cjet_config.h":
+                txt, n = re.subn(r"CONFIG_MAX_MESSAGE_SIZE\s*=\s*\d+", "CONFIG_MAX_MESSAGE_SIZE = %d" % bufsize, txt)
+                if n != 1:
+                    raise C.BuildError("cjet_config.h no longer defines CONFIG_MAX_MESSAGE_SIZE as an enum constant")
+            p = os.path.join(g, os.path.basename(h))
+            if not os.path.exists(p) or open(p).read() != txt:
+                with open(p, "w") as f:
+                    f.write(txt)
+        flags = ["-iquote", d] + flags
     src = [C.ROOT + "/harness/comp/ws.c"] + [os.path.join(C.SRC, f) for f in REPO_FILES] + \
         sorted(glob.glob(os.path.join(C.SRC, "zlib", "*.c")))
-    return C.cc_build("ws" if bufsize is None else "ws_%d" % bufsize, src,
-                      extra_flags=["-I" + d, "-I" + os.path.join(C.SRC, "zlib")])
+    return C.cc_build("ws" if bufsize is None else "ws_%d" % bufsize, src, extra_flags=flags)
 
 
 # --------------------------------------------------------------------------------------------- RFC 6455 reference
